@@ -55,6 +55,7 @@ func runC06(c *Ctx) {
 	c06OneBranch(c, T, condH, d)
 	c06Not(c, T, parms)
 	c06Dispatch(c, barms, parms)
+	nullDefinition(c, "C06.null-definition")
 }
 
 func truthArg(f *ssa.Function) *ssa.Parameter {
